@@ -93,12 +93,16 @@ def kinds():
     K["word"] = lambda i: {"text": ".word 5", "exp": (lambda addr: w(5)), "defs": [], "needs_even": True}
     K["dword"] = lambda i: {"text": ".dword 1", "exp": (lambda addr: w(0) + w(1)), "defs": [], "needs_even": True}
     K["wlist"] = lambda i: {"text": "7, 10", "exp": (lambda addr: w(7) + w(8)), "defs": [], "needs_even": True}
+    # operand-less forms: an implicit zero of the directive's width (content is not demanded by C06, the *size* is C02's business)
+    K["word0"] = lambda i: {"text": ".word", "exp": (lambda addr: w(0)), "defs": [], "needs_even": True}
+    K["dword0"] = lambda i: {"text": ".dword", "exp": (lambda addr: w(0) + w(0)), "defs": [], "needs_even": True}
+    K["byte0"] = lambda i: {"text": ".byte", "exp": (lambda addr: Z), "defs": []}
     K["worddot"] = lambda i: {"text": ".word .", "exp": (lambda addr: w(addr)), "defs": [], "needs_even": True, "abs": 1}
     return K
 
 
 KINDS = kinds()
-ORDER = ["nop", "mov4", "mov6", "byte1", "byte3", "word", "dword", "wlist", "worddot", "ascii2", "ascii3", "asciz2", "rad50",
+ORDER = ["nop", "mov4", "mov6", "byte1", "byte3", "word", "dword", "wlist", "worddot", "word0", "dword0", "byte0", "ascii2", "ascii3", "asciz2", "rad50",
          "blkb3", "blkw2", "blkbf", "blkwf", "even", "odd", "align4", "alignf", "skip5", "skipf",
          "rep2nop", "repeven", "repf", "rep3even", "rep4dot", "ins0", "ins5", "inc2", "incinc", "incdeep", "label", "assign"]
 assert set(ORDER) == set(KINDS)
